@@ -41,6 +41,12 @@ FRAGMENT_HISTORY = [
      "first_reasons_outside": {"node:tuple": 390, "callee outside": 307, "node:array": 145, "tuple result": 133,
                                "tuple parameter": 97, "array parameter": 85, "array result": 83, "vec parameter": 77,
                                "node:to-dyn": 70, "vec result": 70, "call:vec_new": 55, "func parameter": 54}},
+    {"stage": "+ tuples (construction, projection, tuple parameters / results / fields / payloads)", "inside": 4814,
+     "functions": 6160,
+     "first_reasons_outside": {"callee outside": 278, "node:array": 241, "node:to-dyn": 119, "call:vec_new": 91,
+                               "array parameter": 85, "array result": 85, "vec parameter": 77, "vec result": 73,
+                               "func parameter": 54, "function name as value": 39, "node:go": 33,
+                               "closure env with func field": 25, "same let re-declared in two match clauses": 22}},
 ]
 
 
